@@ -208,6 +208,25 @@ def c19c(tree, ob):
 
 
 def c19e(tree, ob):
+    # the routing decision is recorded in the same action record the report is built from: where it is NOT carried out it
+    # must be withdrawn, or the report asserts an action that did not occur
+    for (qual, keys) in (('Agent._do_fwd', ('forward',)), ('Agent.recv_bundle', ('deliver', 'forward'))):
+        fx = FuncView(tree, AGENT, qual)
+        for h in [x for x in walk_local(fx.func) if isinstance(x, ast.ExceptHandler)]:
+            tr = enclosing(h, (ast.Try,))
+            body_calls = [call_name(c) or '' for st in tr.body for c in calls_in(st)]
+            if not any(n.endswith('send_bundle') or n.endswith('step.action') for n in body_calls):
+                continue
+            popped = {const_str(c.args[0]) for c in calls_in(h) if pm('ctr.actions.pop($k, None)', c) is not None} | \
+                     {const_str(t.slice) for d in walk_local(h) if isinstance(d, ast.Delete) for t in d.targets if isinstance(t, ast.Subscript) and src(t.value) == 'ctr.actions'}
+            missing = [k for k in keys if k not in popped]
+            deleted = any(c.args and const_str(c.args[0]) == 'delete' for c in method_calls(h, 'record_action', 'ctr'))
+            if missing or not deleted:
+                what = 'forwarded' if qual.endswith('_do_fwd') else 'delivered'
+                ob.violate(AGENT, qual, 'except: {} stays recorded'.format(' / '.join(missing) or 'no delete'), 'when the step raises, the routing decision recorded earlier stays in the action record: the status '
+                           'report asserts "{}" for a bundle that was not (next to "deleted", or alone when only that report was requested)'.format(what), h)
+            else:
+                ob.site(AGENT, h, qual + ': failure withdraws the routing decision and records delete')
     fv = FuncView(tree, AGENT, 'Agent.recv_bundle')
     fins = method_calls(fv.func, '_finish_bundle', 'self')
     for key in ('delete', 'deliver'):
